@@ -369,6 +369,8 @@ def mul_lemmas(M):
         "mul-strict-left": (z3.Implies(z3.And(y >= 1, x < z), M(x, y) + y <= M(z, y)), [two]),
         "mul-strict-right": (z3.Implies(z3.And(y >= 1, x < z), M(y, x) + y <= M(y, z)), [twob]),
         "mul-pos": (z3.Implies(z3.And(x >= 1, y >= 1), z3.And(M(x, y) >= x, M(x, y) >= y)), [[M(x, y)]]),
+        "mul-succ-left": (z3.Implies(z == x + 1, M(z, y) == M(x, y) + y), [two]),
+        "mul-succ-right": (z3.Implies(z == x + 1, M(y, z) == M(y, x) + y), [twob]),
     }
 
 
